@@ -221,6 +221,14 @@ def _set_bytearray(self, value):
 def check_revalidation(ctx):
     repo = ctx.repo
     for mname, ref in REF_SET.items():
+        if repo.cls("BaseNumber").find_method(mname) is None:
+            # the helper has been inlined into set(): the clause is carried by set() agreeing with its reviewed model with
+            # this helper's reviewed model inlined (the same predicate, the same stores)
+            from .. import refmodels
+
+            ctx.require(refmodels._inlined_into_callers(ctx, f"BaseNumber.{mname}"), f"BaseNumber.{mname} not found and set() does not contain its reviewed behaviour")
+            ctx.ob("C02.P1", f"BaseNumber.{mname}", True, "inlined into set(), which agrees with its reviewed model with this helper's model inlined", key="predicate inlined")
+            continue
         f = repo.method("BaseNumber", mname, inherited=False)
         _codec.agree(ctx, "C02.P1", f, ref, {
             "raises": "an element is rejected exactly when x < _min or x > _max (the boundary values themselves are valid encodings); too many elements are refused",
@@ -235,7 +243,7 @@ def check_revalidation(ctx):
     lo, hi = (f"{x} < self._min", False), (f"self._max < {x}", False)
     rejecting = [q for q in paths if q.kind == "raise" and any(t.startswith("ALL[") and "self._min" in t and "self._max" in t for t, _ in q.conds)]
     storing = [q for q in paths if q.kind != "raise" and any(e[0] == "store" and e[1] == "self.value" and e[2] == f"[{x}]" for e, _ in summary.flat_effects(q.effects))]
-    ok = len(rejecting) == 1 and (f"ALL[-{x} < self._min;-self._max < {x}]", False) in rejecting[0].conds and len(storing) == 1 and lo in storing[0].conds and hi in storing[0].conds
+    ok = bool(rejecting) and all((f"ALL[-{x} < self._min;-self._max < {x}]", False) in q.conds for q in rejecting) and bool(storing) and all(lo in q.conds and hi in q.conds for q in storing)
     ctx.ob("C02.P1", f.qualname, ok, "a scalar is rejected exactly when x < _min or x > _max and stored otherwise" if ok else
            f"the scalar path of set() does not reject exactly `x < _min or x > _max`: refusing paths {[q.conds for q in rejecting]}, storing paths {[q.conds for q in storing]}: the boundary encodings (0xFF.., 0x80.., largest finite float) are refused or out-of-range values pass",
            key="predicate scalar", where=f.where)
